@@ -76,18 +76,126 @@ theorem foldl_congr (g g' : Move → Option Int) (ms : List Move) (a : Option In
     rw [this]
     exact ih _ (fun m' hm' => h m' (List.mem_cons_of_mem _ hm'))
 
+/-! ### the fold of `Spec.Q`: only the relevant moves are folded; a skipped move needs `z = false` -/
+
+/-- the step of the fold of `Spec.Q`: `rel m` = the child can matter, `z` = no fuel is left for a child. -/
+def relStep (g : Move → Option Int) (rel : Move → Bool) (z : Bool) (acc : Option Int) (m : Move) :
+    Option Int :=
+  if rel m then foldStep g acc m else if z then none else acc
+
+theorem relFold_none (g : Move → Option Int) (rel : Move → Bool) (z : Bool) (ms : List Move) :
+    ms.foldl (relStep g rel z) none = none := by
+  induction ms with
+  | nil => rfl
+  | cons m ms ih =>
+    rw [List.foldl_cons]
+    have : relStep g rel z none m = none := by
+      unfold relStep foldStep; cases rel m <;> cases z <;> simp
+    rw [this]; exact ih
+
+/-- the fold of `Spec.Q` is the plain fold over the relevant moves, unless a move is skipped with no fuel. -/
+theorem relFold_eq (g : Move → Option Int) (rel : Move → Bool) (z : Bool) (ms : List Move)
+    (acc : Option Int) :
+    ms.foldl (relStep g rel z) acc =
+      if (z && !ms.all rel) = true then none else (ms.filter rel).foldl (foldStep g) acc := by
+  induction ms generalizing acc with
+  | nil => simp
+  | cons m ms ih =>
+    rw [List.foldl_cons]
+    cases hr : rel m
+    · cases z
+      · have : relStep g rel false acc m = acc := by simp [relStep, hr]
+        rw [this, ih]; simp [hr]
+      · have : relStep g rel true acc m = none := by simp [relStep, hr]
+        rw [this, relFold_none]; simp [hr]
+    · have : relStep g rel z acc m = foldStep g acc m := by simp [relStep, hr]
+      rw [this, ih]; simp [hr]
+
+/-- no move is skipped without fuel. -/
+theorem relFold_some (g : Move → Option Int) (rel : Move → Bool) (z : Bool) (ms : List Move)
+    (acc : Option Int) (q : Int) (h : ms.foldl (relStep g rel z) acc = some q) :
+    (∀ m ∈ ms, rel m = false → z = false) ∧ (ms.filter rel).foldl (foldStep g) acc = some q := by
+  rw [relFold_eq] at h
+  split at h
+  · cases h
+  · rename_i hc
+    refine ⟨fun m hm hr => ?_, h⟩
+    cases z
+    · rfl
+    · exfalso; apply hc
+      simp only [Bool.true_and, Bool.not_eq_true', List.all_eq_false]
+      exact ⟨m, hm, by simp [hr]⟩
+
+theorem relFold_of (g : Move → Option Int) (rel : Move → Bool) (z : Bool) (ms : List Move)
+    (acc : Option Int) (h : ∀ m ∈ ms, rel m = false → z = false) :
+    ms.foldl (relStep g rel z) acc = (ms.filter rel).foldl (foldStep g) acc := by
+  rw [relFold_eq, if_neg]
+  intro hc
+  simp only [Bool.and_eq_true, Bool.not_eq_true', List.all_eq_false] at hc
+  obtain ⟨hz, m, hm, hr⟩ := hc
+  have := h m hm (by simpa using hr)
+  rw [hz] at this; cases this
+
+/-- the fold only depends on relevance and child values of the listed moves. -/
+theorem relFold_congr (g g' : Move → Option Int) (rel rel' : Move → Bool) (z : Bool) (ms : List Move)
+    (a : Option Int) (hr : ∀ m ∈ ms, rel m = rel' m) (h : ∀ m ∈ ms, g m = g' m) :
+    ms.foldl (relStep g rel z) a = ms.foldl (relStep g' rel' z) a := by
+  induction ms generalizing a with
+  | nil => rfl
+  | cons m ms ih =>
+    rw [List.foldl_cons, List.foldl_cons]
+    have : relStep g rel z a m = relStep g' rel' z a m := by
+      simp [relStep, foldStep, h m List.mem_cons_self, hr m List.mem_cons_self]
+    rw [this]
+    exact ih _ (fun m' hm' => hr m' (List.mem_cons_of_mem _ hm')) (fun m' hm' => h m' (List.mem_cons_of_mem _ hm'))
+
 section spec
 variable {P : Type} (G : Game P)
 
 /-- the move list of a quiescence node. -/
 def qList (p : P) : List Move := if G.inCheck p then G.moves p else G.qmoves p
 
+/-- the move `m` from `p` leads to a child that can change the value of `p` (`Spec.qRelevant`). -/
+def qRel (p : P) (m : Move) : Bool := Spec.qRelevant G p (G.play p m)
+
+theorem qMated_eq (p : P) : Spec.qMated G p = ((qList G p).isEmpty && G.inCheck p) := rfl
+
+theorem qRel_eq (p : P) (m : Move) :
+    qRel G p m = (Spec.qMated G (G.play p m) || decide (G.eval p < -(G.eval (G.play p m)))) := rfl
+
+/-- a move that is not relevant: the child is not mated and stands at least as well (for its side) as
+    minus the parent's static score. -/
+theorem qRel_false {p : P} {m : Move} (h : qRel G p m = false) :
+    Spec.qMated G (G.play p m) = false ∧ -(G.eval (G.play p m)) ≤ G.eval p := by
+  rw [qRel_eq] at h
+  simp only [Bool.or_eq_false_iff, decide_eq_false_iff_not] at h
+  exact ⟨h.1, by omega⟩
+
 theorem Q_zero (p : P) : Spec.Q G 0 p = none := rfl
 
+theorem Qplain_zero (p : P) : Spec.Qplain G 0 p = none := rfl
+
+theorem Qplain_succ (n : Nat) (p : P) :
+    Spec.Qplain G (n + 1) p =
+      if (qList G p).isEmpty && G.inCheck p then some (-CHECKMATE_SCORE)
+      else (qList G p).foldl (foldStep (fun m => Spec.Qplain G n (G.play p m))) (some (G.eval p)) := rfl
+
+/-- unfolding, as defined: relevant moves are folded, a skipped move needs a unit of fuel (`n ≠ 0`). -/
 theorem Q_succ (n : Nat) (p : P) :
     Spec.Q G (n + 1) p =
       if (qList G p).isEmpty && G.inCheck p then some (-CHECKMATE_SCORE)
-      else (qList G p).foldl (foldStep (fun m => Spec.Q G n (G.play p m))) (some (G.eval p)) := rfl
+      else (qList G p).foldl
+        (relStep (fun m => Spec.Q G n (G.play p m)) (qRel G p) (n == 0)) (some (G.eval p)) := rfl
+
+/-- unfolding with fuel to spare: the plain fold over the relevant moves. -/
+theorem Q_succ_succ (n : Nat) (p : P) :
+    Spec.Q G (n + 2) p =
+      if (qList G p).isEmpty && G.inCheck p then some (-CHECKMATE_SCORE)
+      else ((qList G p).filter (qRel G p)).foldl
+        (foldStep (fun m => Spec.Q G (n + 1) (G.play p m))) (some (G.eval p)) := by
+  rw [Q_succ, relFold_of]
+  intro m _ _
+  simp
 
 theorem V_zero (qf : Nat) (p : P) : Spec.V G qf 0 p = Spec.Q G qf p := rfl
 
@@ -102,14 +210,36 @@ theorem V_succ_cons (qf d : Nat) (p : P) (m : Move) (ms : List Move) (h : G.move
         ((Spec.V G qf d (G.play p m)).map (fun v => -v)) := by
   rw [Spec.V, h]; rfl
 
-/-- a non-terminal quiescence node: stand-pat and every child are lower bounds, one attains `q`. -/
+/-- a non-terminal quiescence node: a skipped child has a unit of fuel, every relevant child has a value,
+    stand-pat and every relevant child are lower bounds, one of them attains `q`. -/
 theorem Q_children (n : Nat) (p : P) (q : Int)
     (hm : ((qList G p).isEmpty && G.inCheck p) = false) (h : Spec.Q G (n + 1) p = some q) :
-    (∀ m ∈ qList G p, ∃ x, Spec.Q G n (G.play p m) = some x) ∧ G.eval p ≤ q ∧
-    (∀ m ∈ qList G p, ∀ x, Spec.Q G n (G.play p m) = some x → -x ≤ q) ∧
-    (q = G.eval p ∨ ∃ m ∈ qList G p, ∃ x, Spec.Q G n (G.play p m) = some x ∧ -x = q) := by
+    (∀ m ∈ qList G p, qRel G p m = false → n ≠ 0) ∧
+    (∀ m ∈ qList G p, qRel G p m = true → ∃ x, Spec.Q G n (G.play p m) = some x) ∧ G.eval p ≤ q ∧
+    (∀ m ∈ qList G p, qRel G p m = true → ∀ x, Spec.Q G n (G.play p m) = some x → -x ≤ q) ∧
+    (q = G.eval p ∨
+      ∃ m ∈ qList G p, qRel G p m = true ∧ ∃ x, Spec.Q G n (G.play p m) = some x ∧ -x = q) := by
   rw [Q_succ, hm] at h
-  exact foldl_some _ _ _ _ h
+  obtain ⟨hz, hf⟩ := relFold_some _ _ _ _ _ _ h
+  obtain ⟨h1, h2, h3, h4⟩ := foldl_some _ _ _ _ hf
+  refine ⟨?_, ?_, h2, ?_, ?_⟩
+  · intro m hm' hr; simpa using hz m hm' hr
+  · exact fun m hm' hr => h1 m (List.mem_filter.2 ⟨hm', hr⟩)
+  · exact fun m hm' hr => h3 m (List.mem_filter.2 ⟨hm', hr⟩)
+  · rcases h4 with e | ⟨m, hm', x, hx, e⟩
+    · exact Or.inl e
+    · have := List.mem_filter.1 hm'
+      exact Or.inr ⟨m, this.1, this.2, x, hx, e⟩
+
+/-- converse of `Q_children`: a non-terminal node has a value as soon as its relevant children have one
+    (and a skipped child a unit of fuel). -/
+theorem Q_isSome (n : Nat) (p : P) (hm : ((qList G p).isEmpty && G.inCheck p) = false)
+    (hz : ∀ m ∈ qList G p, qRel G p m = false → n ≠ 0)
+    (hex : ∀ m ∈ qList G p, qRel G p m = true → ∃ x, Spec.Q G n (G.play p m) = some x) :
+    ∃ q, Spec.Q G (n + 1) p = some q := by
+  rw [Q_succ, hm, relFold_of _ _ _ _ _ (fun m hm' hr => by simpa using hz m hm' hr)]
+  simp only [Bool.false_eq_true, ↓reduceIte]
+  exact foldl_isSome _ _ _ (fun m hm' => hex m (List.mem_filter.1 hm').1 (List.mem_filter.1 hm').2)
 
 /-- a node with moves: every child has a value, each is a lower bound, one attains `v`. -/
 theorem V_children (qf d : Nat) (p : P) (v : Int) (hm : G.moves p ≠ [])
@@ -148,6 +278,27 @@ theorem Q_mono (n m : Nat) (p : P) (v : Int) (h : Spec.Q G n p = some v) (hnm : 
   | succ n ih =>
     obtain ⟨m', rfl⟩ : ∃ m', m = m' + 1 := ⟨m - 1, by omega⟩
     rw [Q_succ] at h ⊢
+    split
+    · rename_i hc; rw [if_pos hc] at h; exact h
+    · rename_i hc
+      rw [if_neg hc] at h
+      obtain ⟨hz, hf⟩ := relFold_some _ _ _ _ _ _ h
+      rw [relFold_of _ _ _ _ _ (fun mv hmv hr => by have := hz mv hmv hr; simp at this ⊢; omega), ← hf]
+      have hall := (foldl_some _ _ _ _ hf).1
+      apply foldl_congr
+      intro mv hmv
+      obtain ⟨x, hx⟩ := hall mv hmv
+      rw [hx]
+      exact ih m' _ x hx (by omega)
+
+/-- more fuel never changes a plain quiescence value. -/
+theorem Qplain_mono (n m : Nat) (p : P) (v : Int) (h : Spec.Qplain G n p = some v) (hnm : n ≤ m) :
+    Spec.Qplain G m p = some v := by
+  induction n generalizing m p v with
+  | zero => cases h
+  | succ n ih =>
+    obtain ⟨m', rfl⟩ : ∃ m', m = m' + 1 := ⟨m - 1, by omega⟩
+    rw [Qplain_succ] at h ⊢
     split
     · rename_i hc; rw [if_pos hc] at h; exact h
     · rename_i hc
